@@ -5,7 +5,7 @@ from collections import namedtuple
 import treeview
 
 Item = namedtuple('Item', 'id indentation')
-MAXLEN = 5 if os.environ.get("VERIF_TIER") != "thorough" else 6
+MAXLEN = 4 if os.environ.get("VERIF_TIER") != "thorough" else 5
 
 
 def tree_valid(indents: List[int], deleted: List[bool]) -> bool:
